@@ -217,6 +217,9 @@ pub fn exhaustive(
     thresholds: bool,
     gen: &dyn Fn(&mut Case, usize, bool) -> Vec<Vec<Op>>,
 ) {
+    if ctx.sampled && ctx.only.is_none() {
+        return sampled(ctx, family, cfgs, l, thresholds, gen);
+    }
     ctx.begin_family(family);
     let full = ctx.thorough();
     for cfg in cfgs {
@@ -238,7 +241,7 @@ pub fn exhaustive(
                     ops
                 };
                 for seq in ops.iter() {
-                    if !ctx.take(cfg) {
+                    if !ctx.take_sig(cfg, &opsig(seq.last().unwrap())) {
                         continue;
                     }
                     let mut case = arrange(ctx, cfg, st);
@@ -259,6 +262,93 @@ pub fn exhaustive(
                         record(ctx, cfg, &st.label(), seq, nontrivial, &desc);
                     }
                 }
+            }
+        }
+    }
+}
+
+/// Tool modes (Miri, sanitizers, valgrind): the same case space, but a seeded stratified sample
+/// of it: states are drawn at random, the operation list of a state is generated once and a few
+/// instances are run from it, preferring (backend, operation signature) strata not yet covered.
+/// `ctx.quota` = number of cases per family for this shard.
+pub fn sampled(
+    ctx: &mut Ctx,
+    family: &str,
+    cfgs: &[CfgEntry],
+    l: usize,
+    thresholds: bool,
+    gen: &dyn Fn(&mut Case, usize, bool) -> Vec<Vec<Op>>,
+) {
+    ctx.begin_family(family);
+    let cfgs: Vec<&CfgEntry> = cfgs.iter().filter(|c| ctx.wants_cfg(c) && c.fixed_cap.map_or(true, |c| c >= OTHER_LEN)).collect();
+    if cfgs.is_empty() {
+        return;
+    }
+    let mut rng = Rng::new(ctx.seed ^ crate::util::fnv(family) ^ ((ctx.shard as u64) << 40));
+    let budget = ctx.quota.max(1);
+    let per_state = 4u64;
+    let mut done = 0u64;
+    let mut round = ctx.shard;
+    let mut attempts = 0;
+    while done < budget && ctx.viols.len() < ctx.max_viols && attempts < budget * 8 {
+        attempts += 1;
+        let cfg = cfgs[round % cfgs.len()];
+        round += 1;
+        ctx.stats.cfgs.insert(cfg.name.clone());
+        // under an interpreter the long threshold states are visited rarely
+        let lens = lengths(cfg, l, thresholds && (!ctx.lean || rng.chance(1, 6)));
+        let len = *rng.pick(&lens);
+        let sts = states_for(cfg, len);
+        let st = *rng.pick(&sts);
+        let seqs = {
+            let mut scratch = arrange(ctx, cfg, st);
+            let o = gen(&mut scratch, len, false);
+            scratch.finish(ctx);
+            o
+        };
+        if seqs.is_empty() {
+            continue;
+        }
+        // candidate instances: prefer strata not covered yet
+        let mut picks: Vec<usize> = Vec::new();
+        for _ in 0..64 {
+            let k = rng.below(seqs.len());
+            let key = format!("{:?}|{}", cfg.mem, opsig(seqs[k].last().unwrap()));
+            if !ctx.strata.contains_key(&key) && !picks.contains(&k) {
+                picks.push(k);
+                ctx.strata.insert(key, 1);
+            }
+            if picks.len() as u64 >= per_state {
+                break;
+            }
+        }
+        if picks.is_empty() {
+            picks.push(rng.below(seqs.len()));
+        }
+        for k in picks {
+            if done >= budget {
+                break;
+            }
+            let seq = &seqs[k];
+            ctx.ordinal = k as u64 + 1;
+            ctx.breadcrumb(&format!("{}|{}", cfg.name, st.label()), k as u64);
+            let mut case = arrange(ctx, cfg, st);
+            case.desc = format!("{}|{}|sample#{}", cfg.name, st.label(), k);
+            let mut nontrivial = false;
+            let mut skipped = false;
+            for op in seq {
+                let (out, exp) = case.step(ctx, op);
+                nontrivial |= exp.nontrivial;
+                if out.unsupported {
+                    skipped = true;
+                    break;
+                }
+            }
+            let desc = format!("{} | {}", case.desc, seq.iter().map(|o| o.to_string()).collect::<Vec<_>>().join("; "));
+            case.finish(ctx);
+            if !skipped {
+                record(ctx, cfg, &st.label(), seq, nontrivial, &desc);
+                done += 1;
             }
         }
     }
@@ -496,13 +586,20 @@ pub fn gen_op(rng: &mut Rng, case: &mut Case, p: &HistParams) -> Op {
 
 pub fn histories(ctx: &mut Ctx, family: &str, cfgs: &[CfgEntry], p: &HistParams) {
     ctx.begin_family(family);
-    for cfg in cfgs {
+    for (ci, cfg) in cfgs.iter().enumerate() {
         if !ctx.wants_cfg(cfg) {
             continue;
         }
         ctx.begin_cfg(cfg);
         for h in 0..p.histories {
-            if !ctx.take(cfg) {
+            if ctx.sampled && ctx.only.is_none() {
+                // spread the (few) tool-mode histories over the shards by configuration
+                ctx.ordinal += 1;
+                if (ci + h) % ctx.nshards != ctx.shard {
+                    continue;
+                }
+                ctx.breadcrumb(&cfg.name, h as u64);
+            } else if !ctx.take(cfg) {
                 continue;
             }
             let mut rng = Rng::new(ctx.seed ^ crate::util::fnv(&cfg.name) ^ ((h as u64) << 32) ^ crate::util::fnv(family));
@@ -1150,7 +1247,7 @@ pub fn fault_enum(
                         continue;
                     }
                     let op = seq.last().unwrap();
-                    if !ctx.take(cfg) {
+                    if !ctx.take_sig(cfg, &opsig(op)) {
                         continue;
                     }
                     let ordinal = ctx.ordinal - 1;
@@ -1266,7 +1363,7 @@ pub fn lying_enum(ctx: &mut Ctx, family: &str, cfgs: &[CfgEntry], l: usize) {
                     o
                 };
                 for seq in seqs.iter() {
-                    if !ctx.take(cfg) {
+                    if !ctx.take_sig(cfg, &opsig(&seq[0])) {
                         continue;
                     }
                     let op = &seq[0];
